@@ -1338,7 +1338,7 @@ namespace avel {
     [[nodiscard]]
     AVEL_FINL mask4x64f signbit(vec4x64f arg) {
         #if (defined(AVEL_AVX512VL) && defined(AVEL_AVX512DQ)) || defined(AVEL_AVX10_1)
-        return mask4x64f{_mm256_fpclass_pd_mask(decay(arg), 0x40 | 0x04 | 0x10)};
+        return mask4x64f{_mm256_movepi64_mask(_mm256_castpd_si256(decay(arg)))};
 
         #elif defined(AVEL_AVX512VL)
         return mask4x64f{_mm256_cmplt_epi64_mask(_mm256_castpd_si256(decay(arg)), _mm256_setzero_si256())};
